@@ -12,7 +12,10 @@ RULES = {
                 '(1:1 nodes never 0 or 2, filters 0/1, ...)',
     'PASS-VALUE': 'pass-through and batching nodes emit/buffer the very element they received',
     'FIFO-END': 'element buffers, metadata containers and queues add at one end and take from the other (FIFO queue classes)',
-    'SWAP-ATOMIC': 'a flushed buffer is read and reset with no suspension in between',
+    'SWAP-ATOMIC': 'a flushed buffer is read and reset before it is emitted: no suspension and no (re-entrant) emission lies '
+                   'between the read and the reset',
+    'STATE-PER-INSTANCE': 'node state is per instance: no mutable default argument or class-level container ends up as (or is '
+                          'mutated as) a node\'s buffer',
     'PAIRED-BUFFER': 'an element buffer and its metadata twin are mutated in lock-step (same paths, same order)',
     'SINGLE-CONSUMER': 'a drain coroutine is scheduled from exactly one once-only (or guarded) site',
     'SERIAL-DRAIN': 'a drain loop awaits the downstream of one emission before taking the next element',
@@ -386,8 +389,12 @@ def check_swap_atomic(ctx, R, classes):
                     for r in reads:
                         ems = [i for i in range(r, j) if evs[i].kind == 'EM' and (
                             ('field:' + f) in (evs[i].x.get('data_tags') or ()) or ('field:' + f) in (evs[i].b or ()))]
-                        if ems and any(x.kind == 'SUS' for x in evs[ems[0]:j]):
+                        # read, emit, and only then reset: whatever arrives while the emission is in progress - during
+                        # a suspension, or re-entrantly through a feedback edge (the emission is a synchronous call into
+                        # the downstream graph) - is wiped by the reset
+                        if ems:
                             bad = True
+                            why = 'suspends' if any(x.kind == 'SUS' for x in evs[ems[0]:j]) else 're-entrant'
                     # a reset that is not a swap and whose content was not emitted before loses elements
                     cur = acc.get(f)
                     if cur is None or (cur[0] and bad):
@@ -395,8 +402,61 @@ def check_swap_atomic(ctx, R, classes):
                     last_reset[f] = j
             for f, (ok, line, evs) in acc.items():
                 R.ob('SWAP-ATOMIC', con, f, ok,
-                     'self.%s is emitted, the coroutine suspends, and only then the buffer is reset: elements that arrive '
-                     'during the suspension are lost' % f, ctx.where(fn, line), fmt_path(evs) if evs else None)
+                     'self.%s is read and emitted, and only afterwards reset: elements that arrive while the emission is in '
+                     'progress (during a suspension, or re-entrantly through a feedback edge) are lost' % f,
+                     ctx.where(fn, line), fmt_path(evs) if evs else None)
+
+
+def _mutable_value(n):
+    if isinstance(n, (ast.List, ast.Dict, ast.Set, ast.ListComp, ast.DictComp, ast.SetComp)):
+        return True
+    if isinstance(n, ast.Call):
+        f = n.func
+        nm = f.id if isinstance(f, ast.Name) else (f.attr if isinstance(f, ast.Attribute) else None)
+        return nm in ('deque', 'list', 'dict', 'set', 'defaultdict', 'OrderedDict', 'Queue', 'Condition', 'bytearray')
+    return False
+
+
+def check_state_per_instance(ctx, R, classes):
+    for cls in classes:
+        init = cls.methods.get('__init__')
+        con = cls.module.name + '.' + cls.name
+        if init is not None:
+            a = init.node.args
+            params = a.posonlyargs + a.args
+            defaults = [None] * (len(params) - len(a.defaults)) + list(a.defaults)
+            pairs = list(zip(params, defaults)) + list(zip(a.kwonlyargs, a.kw_defaults))
+            for prm, d in pairs:
+                if d is None or not _mutable_value(d):
+                    continue
+                stored = any(isinstance(n, ast.Assign) and any(self_field(t) for t in n.targets)
+                             and any(isinstance(x, ast.Name) and x.id == prm.arg for x in ast.walk(n.value))
+                             for n in own_nodes(init.node))
+                R.ob('STATE-PER-INSTANCE', con + '.__init__', prm.arg, not stored,
+                     'the mutable default value of parameter `%s` (%s) is created once and becomes the state of every node '
+                     'built without that argument: nodes share one buffer' % (prm.arg, src(d)), ctx.where(init, d.lineno))
+        # class-level containers mutated through self
+        for name, val in cls.assigns.items():
+            if not _mutable_value(val):
+                continue
+            assigned_in_init = init is not None and any(
+                isinstance(n, ast.Assign) and any(self_field(t) == name and isinstance(t, ast.Attribute) for t in n.targets)
+                for n in own_nodes(init.node))
+            mutated = False
+            for mname, fn in cls.methods.items():
+                for n in own_nodes(fn.node):
+                    if isinstance(n, ast.Call) and isinstance(n.func, ast.Attribute) and self_field(n.func.value) == name \
+                            and n.func.attr in (MUT_ADD | MUT_TAKE):
+                        mutated = True
+                    if isinstance(n, (ast.Assign, ast.Delete)):
+                        for t in n.targets:
+                            if isinstance(t, ast.Subscript) and self_field(t) == name:
+                                mutated = True
+            if mutated:
+                R.ob('STATE-PER-INSTANCE', con, name, assigned_in_init,
+                     'the class-level container %s.%s is mutated through self but never re-created per instance' % (cls.name, name),
+                     '%s:%d' % (cls.file, val.lineno))
+    R.count('classes_checked_for_shared_state', len(classes))
 
 
 BATCHING = {'partition', 'partition_unique', 'timed_window', 'timed_window_unique', 'collect'}
